@@ -139,6 +139,24 @@ def run(c):
         if bad and first is None:
             first = (cs, bad[0])
         nbad += len(bad)
+    # the executable precondition of `record_roundtrip` (Props/C01.lean) evaluated by the Lean driver on the records
+    # traced above: the theorem is about a record iff `rootPreb` holds for each of its user roots
+    hyp = {'records': 0, 'roots': 0, 'roots_meeting_precondition': 0, 'roots_not_meeting': []}
+    for cs in cases:
+        lines = [json.dumps(cs.ir)]
+        for en, a in cs.recs:
+            lines.append(json.dumps({'op': 'rtpre', 'dst': cs.dname, 'ert': en, 'args': a, 'buf': 4096}))
+        for (en, a), out in zip(cs.recs, common.drv_run(lines)[1:]):
+            hyp['records'] += 1
+            for tok in out.split():
+                if tok.endswith('=-') or '=' not in tok:
+                    continue
+                hyp['roots'] += 1
+                if tok.endswith('=1'):
+                    hyp['roots_meeting_precondition'] += 1
+                elif len(hyp['roots_not_meeting']) < 5:
+                    hyp['roots_not_meeting'].append({'config_seed': cs.seed, 'ert': en, 'root': tok})
+    c.coverage['correspondence']['theorem hypotheses (record_roundtrip) on traced records'] = hyp
     c.coverage['correspondence']['H-layout'] = {'comparisons': ncmp, 'disagreements': nbad, 'streams': dist}
     c.coverage['disagreements_checked'] = c.coverage.get('disagreements_checked', 0) + nbad
     if nbad and not c.violations and not rt.search_impl(
